@@ -316,12 +316,12 @@ theorem assembly_spec {bs w : Int} (hbs : 1 ≤ bs) (hw : 1 ≤ w) (file : Bytes
     (resOf : Str → Bytes) : ∀ (scs : List Scaffold) (acc : StreamLog),
       (∀ sc ∈ scs, ∀ r ∈ sc.rows, RowOK file idx resOf r) →
       (∀ c ∈ acc.chunkSizes, (c : Int) ≤ bs) → (∀ r ∈ acc.reads, 0 ≤ r ∧ r ≤ bs) →
-      ∃ lg, scs.foldlM (fun (acc : StreamLog) sc => do
+      ∃ lg : StreamLog, scs.foldlM (fun (acc : StreamLog) sc => do
           let lg ← streamScaffold file idx bs w sc
           pure { out := acc.out ++ lg.out, want := w, chunkSizes := acc.chunkSizes ++ lg.chunkSizes,
                  reads := acc.reads ++ lg.reads }) acc = .ok lg ∧
         lg.out = acc.out ++ (scs.map (fun sc => recordBytes w sc.name (rowsBody resOf sc.rows))).flatten ∧
-        (∀ c ∈ lg.chunkSizes, (c : Int) ≤ bs) ∧ (∀ r ∈ lg.reads, 0 ≤ r ∧ r ≤ bs)
+        (∀ c : Nat, c ∈ lg.chunkSizes → (c : Int) ≤ bs) ∧ (∀ r ∈ lg.reads, 0 ≤ r ∧ r ≤ bs)
   | [], acc, _, hc, hr => ⟨acc, rfl, by simp, hc, hr⟩
   | sc :: rest, acc, hok, hc, hr => by
     obtain ⟨lg1, h1, ho1, hc1, hr1⟩ := scaffold_spec hbs hw file idx resOf sc (hok sc (by simp))
